@@ -12,6 +12,7 @@
 package c03
 
 import (
+	"math"
 	"bytes"
 	"encoding/json"
 	"fmt"
@@ -203,6 +204,16 @@ func genCase(t *rapid.T) Case {
 			cur = op.hrs()
 		}
 		c.Ops = append(c.Ops, op)
+	}
+	// "any heights, rounds": most histories live near height 1, some far out, where a watermark
+	// that passes through a float64 (JSON) no longer distinguishes neighbouring values
+	hbase := rapid.SampledFrom([]int64{0, 0, 0, 0, 0, 0, 1 << 31, 1<<53 - 2, 1 << 53, 1<<60 + 1, math.MaxInt64 - 100}).Draw(t, "heightBase")
+	rbase := rapid.SampledFrom([]int64{0, 0, 0, 0, 0, 0, 0, 0, 1<<53 - 1, math.MaxInt64 - 100}).Draw(t, "roundBase")
+	for i := range c.Ops {
+		if c.Ops[i].Op != "reload" {
+			c.Ops[i].H += hbase
+			c.Ops[i].R += rbase
+		}
 	}
 	return c
 }
